@@ -22,7 +22,7 @@ import (
 // arithmetic at heights 31..62.
 
 func bigOffset(r *Rng) uint64 {
-	bits := []uint{31, 32, 33, 34, 40, 47, 55, 62}[r.Intn(8)]
+	bits := []uint{31, 32, 33, 34, 40, 47, 55, 62, 63}[r.Intn(9)]
 	b := (r.Next() | 1<<63) >> (64 - bits) // exactly `bits` bits
 	switch r.Intn(10) {
 	case 0, 1, 2:
